@@ -206,3 +206,21 @@ seed(92, "xor-out pass skipped when the old tweak was never set (first-change sh
      ("src/skinny128-cipher.c", "    /* XOR the original tweak out of the key schedule */\n    skinny128_xor_tk1(&(ks->ks), tk_prev);\n", "    /* XOR the original tweak out of the key schedule */\n    skinny128_xor_tk1(&(ks->ks), ks->tweak);\n"))
 seed(93, "tweaked 1-block key uses 56 rounds instead of 48 (skinny128)", ["C04.R5", "C10.R5"],
      ("src/skinny128-cipher.c", "        if (key_size == SKINNY128_BLOCK_SIZE) {\n            ks->rounds = 48;\n            skinny128_set_tk1(ks, tweak, SKINNY128_BLOCK_SIZE, 1);", "        if (key_size == SKINNY128_BLOCK_SIZE) {\n            ks->rounds = 56;\n            skinny128_set_tk1(ks, tweak, SKINNY128_BLOCK_SIZE, 1);"))
+
+seed(28, "READ_WORD32(input, 60) -> (input, 61) in the vec128 ECB load (reads one byte past the batch)", ["C09.R1"],
+     ("src/skinny128-parallel-vec128.c", "READ_WORD32(input, 60)", "READ_WORD32(input, 61)"))
+seed(29, "SkinnyVector4x32U_t -> SkinnyVector4x32_t in a vector output store (aligned move on caller memory)", ["C09.R4"],
+     ("src/skinny128-parallel-vec128.c", "    *((SkinnyVector4x32U_t *)output) =", "    *((SkinnyVector4x32_t *)output) ="))
+seed(30, "first output word of skinny128_ecb_encrypt stored before the last input row is loaded", ["C09.R5"],
+     ("src/skinny128-cipher.c", "    state.row[2] = READ_WORD32(input, 8);\n    state.row[3] = READ_WORD32(input, 12);\n\n    /* Perform all encryption rounds */", "    state.row[2] = READ_WORD32(input, 8);\n    WRITE_WORD32(output, 0, state.row[0]);\n    state.row[3] = READ_WORD32(input, 12);\n\n    /* Perform all encryption rounds */"))
+seed(31, "memcpy(block + B - size, counter, B) in skinny128 vec128 set_counter (over-read and overflow)", ["C09.R2"],
+     (V128, "        memcpy(block + SKINNY128_BLOCK_SIZE - size, counter, size);", "        memcpy(block + SKINNY128_BLOCK_SIZE - size, counter, SKINNY128_BLOCK_SIZE);"))
+seed(32, "skinny_calloc -> calloc in skinny128_ctr_vec256_init (32-byte aligned context from a 16-byte allocator)", ["C09.R7", "C15.R2"],
+     ("src/skinny128-ctr-vec256.c", "    if ((ctx = skinny_calloc(sizeof(Skinny128CTRVec256Ctx_t), &base_ptr)) == NULL)\n        return 0;", "    if ((ctx = calloc(1, sizeof(Skinny128CTRVec256Ctx_t))) == NULL)\n        return 0;\n    base_ptr = ctx;"))
+seed(94, "partial key loader reads the 16-bit word without the (index + 2) <= key_size guard (skinny64_set_tk2)", ["C09.R2"],
+     ("src/skinny64-cipher.c", "            if ((index + 2) <= key_size) {\n                word = READ_WORD16(key, index);\n            } else {\n                word = READ_BYTE(key, index);\n            }\n            tk.row[index / 2] = word;\n        }\n    }\n\n    /* Generate the key schedule words for all rounds */\n    for (index = 0; index < ks->rounds; ++index) {\n        /* Determine the subkey to use at this point in the key schedule */\n        ks->schedule[index].lrow ^= tk.lrow[0];\n\n        /* Permute TK2 for the next round */",
+      "            word = READ_WORD16(key, index);\n            tk.row[index / 2] = word;\n        }\n    }\n\n    /* Generate the key schedule words for all rounds */\n    for (index = 0; index < ks->rounds; ++index) {\n        /* Determine the subkey to use at this point in the key schedule */\n        ks->schedule[index].lrow ^= tk.lrow[0];\n\n        /* Permute TK2 for the next round */"))
+seed(95, "mantis_ecb_crypt_tweaked stores the first output half before reading the tweak", ["C09.R5"],
+     ("src/mantis-cipher.c", "void mantis_ecb_crypt_tweaked\n    (void *output, const void *input, const void *tweak, const MantisKey_t *ks)\n{", "void mantis_ecb_crypt_tweaked\n    (void *output, const void *input, const void *tweak, const MantisKey_t *ks)\n{\n    WRITE_WORD32(output, 0, READ_WORD32(input, 0));"))
+seed(96, "set_tweak copies sizeof(tweak field) bytes from a short caller tweak (over-read)", ["C09.R2", "C04.R3"],
+     ("src/skinny64-cipher.c", "        memcpy(ks->tweak, tweak, tweak_size);\n        memset(ks->tweak + tweak_size, 0, sizeof(ks->tweak) - tweak_size);", "        memcpy(ks->tweak, tweak, sizeof(ks->tweak));"))
